@@ -119,4 +119,6 @@ MUTANTS += [
  {"id": "revert-F-C1", "props": ["C08"], "edits": [("pymtl3/dsl/NamedObject.py", "        if s.__dict__.get( name ) is obj:\n          return\n        fields = sd.NamedObject_fields", "        fields = sd.NamedObject_fields")]},
  {"id": "revert-F-Y4", "props": ["C12"], "edits": [("pymtl3/passes/backends/yosys/translation/structural/YosysStructuralTranslatorL4.py", "        if obj is not None:\n          c_name = _subcomp_name( obj )\n", "")]},
  {"id": "revert-F-W5", "props": ["C10"], "edits": [("pymtl3/passes/rtlir/behavioral/BehavioralRTLIRTypeCheckL2Pass.py", "          target_nbits = lhs_nbits\n          op = node.orelse\n        else:\n          target_nbits = rhs_nbits\n          op = node.body\n", "          target_nbits = lhs_nbits\n          op = node.body\n        else:\n          target_nbits = rhs_nbits\n          op = node.orelse\n")]},
+ {"id": "revert-F-S2", "props": ["C02"], "edits": [("pymtl3/passes/sim/GenDAGPass.py", "      for z in ( equiv[v] if v in equiv else (v,) ):", "      for z in (v,):")]},
+ {"id": "revert-F-W8", "props": ["C10"], "edits": [("pymtl3/passes/rtlir/behavioral/BehavioralRTLIRTypeCheckL2Pass.py", "    lhs_is_vector = isinstance(lhs_dtype, (rdt.Vector, rdt.Bool))\n    rhs_is_vector = isinstance(rhs_dtype, (rdt.Vector, rdt.Bool))", "    lhs_is_vector = isinstance(lhs_dtype, rdt.Vector)\n    rhs_is_vector = isinstance(rhs_dtype, rdt.Vector)")]},
 ]
